@@ -398,10 +398,11 @@ impl HttpServer {
                         self.socket
                             .accept()
                             .map_err(ServerError::IOError)
-                            .and_then(move |(mut stream, _)| {
-                                stream
-                                    .write(SERVER_FULL_ERROR_MESSAGE)
-                                    .map_err(ServerError::IOError)
+                            .map(move |(mut stream, _)| {
+                                // The refused client may already be gone. Failing to
+                                // notify it is not a server error and must not fail
+                                // `requests` for everyone else.
+                                let _ = stream.write(SERVER_FULL_ERROR_MESSAGE);
                             })?;
                     }
                     // An internal error will compromise any in-flight requests.
